@@ -14,7 +14,7 @@ CFG = {
                    "GeoProofs/Lemmas/C02XMulti.lean", "GeoProofs/Lemmas/C02XBox.lean", "GeoProofs/Lemmas/C02XConst.lean",
                    "GeoProofs/Lemmas/C02XLinear.lean", "GeoProofs/Lemmas/C02XSegs.lean", "GeoProofs/Lemmas/C02XCommon.lean",
                    "GeoProofs/Lemmas/C02XAcc.lean", "GeoProofs/Lemmas/C02XPoint.lean", "GeoProofs/Lemmas/C02XKernel.lean",
-                   "GeoProofs/Lemmas/C02XThin.lean", "GeoProofs/Lemmas/C02XPairs.lean"],
+                   "GeoProofs/Lemmas/C02XThin.lean", "GeoProofs/Lemmas/C02XPairs.lean", "GeoProofs/Lemmas/C02XAreal.lean"],
     "rule": "2/3 of the cases: ordered pairs (A, B) over all 10 types (both through the Geometry enum) from one shared grid, B drawn independently or "
             "from A's own vertices / edge midpoints / edges (so containment is frequent): intersects(A,B), intersects(B,A), contains(A,B), is_within(A,B); "
             "1/3: coordinate_position(G, p) with p a vertex, an edge midpoint or a half-grid point. Three-way comparison per case: implementation, "
@@ -84,7 +84,9 @@ MANIFEST = {
             "MultiLineString, collections of these; the other operand arbitrary, nested collections included): intersectsM_thin_eq_spec, intersectsM_thin_iff_common, symmetric "
             "(intersectsM_thin_symm) - 76 of the 100 type pairs, plus Rect x Rect (intersectsM_rect_rect_eq_spec); the nine Line/LineString/MultiLineString pairs for ALL inputs as "
             "'some segment pair shares a point' (intersectsM_linear_iff, intersectsM_linear_eq_spec). Open (correspondence only): the 15 pairs of areal types that run the "
-            "Polygon x Polygon body (intersectsM_areal_dispatch). (6) Against a Point, every geometry g of the domain, collections with disjoint members included: "
+            "Polygon x Polygon body (intersectsM_areal_dispatch); for them: what the body computes is characterised exactly (polyPoly_iff_boundary: a ring point of q in p or a shell "
+            "point of p in q, bbox early returns included), true => the mask holds (intersectsM_areal_sound, no false positive), and equality modulo one named step "
+            "(intersectsM_polygon_polygon_partial: two valid polygons with a common point and non-meeting boundaries - one lies inside the other). (6) Against a Point, every geometry g of the domain, collections with disjoint members included: "
             "coordinate_position(g, p) = locate (coordPos_eq_locate_dom_partial; away from K9 only), intersects(g, Point) and intersects(Point, g) = mask (intersectsM_geom_point, "
             "intersectsM_point_geom; Point.intersects(g) = g.intersects(Point) for all inputs), contains(g, Point) = T*****FF* (containsM_geom_point), Point.is_within(g) = T*F**F*** "
             "(withinM_point_geom); the accumulator clauses are additive (calcPos_additive) and members of a domain collection are disjoint point sets (collection_members_apart). "
